@@ -8,12 +8,13 @@ theorem GInv.congr {E : Env} {s s' : PState} (h : GInv E s) (h1 : s'.global = s.
   unfold GInv at *; rw [h1, h2]; exact h
 
 theorem Stk.refl (E : Env) (s : PState) : Stk E s s :=
-  ⟨Nat.le_refl _, rfl, rfl, rfl, rfl, rfl, fun _ => rfl, fun _ _ h => h, fun h => h⟩
+  ⟨Nat.le_refl _, rfl, rfl, rfl, rfl, rfl, fun _ => rfl, fun _ _ h => h, fun h => h, fun h => h⟩
 
 theorem Stk.trans {E : Env} {a b c : PState} (h1 : Stk E a b) (h2 : Stk E b c) : Stk E a c :=
   ⟨Nat.le_trans h1.cnt h2.cnt, h2.vtail.trans h1.vtail, h2.vlen.trans h1.vlen,
    h2.rstack.trans h1.rstack, h2.recov.trans h1.recov, h2.invert.trans h1.invert,
-   fun h => (h2.noState h).trans (h1.noState h), fun n hn h => h2.bnd n hn (h1.bnd n hn h), fun h => h2.ginv (h1.ginv h)⟩
+   fun h => (h2.noState h).trans (h1.noState h), fun n hn h => h2.bnd n hn (h1.bnd n hn h), fun h => h2.ginv (h1.ginv h),
+   fun h => h2.ptinv (h1.ptinv h)⟩
 
 theorem Stk.panic_trans {E : Env} {a b c : PState} (h1 : Stk E a b) (h2 : PanicPost E b c) :
     PanicPost E a c :=
@@ -30,9 +31,34 @@ theorem PanicPost.of_cnt_eq {E : Env} {a b c : PState} (h : b.exprCnt = a.exprCn
 theorem Stk.of_eq {E : Env} {s s' : PState} (h1 : s'.exprCnt = s.exprCnt) (h2 : s'.vstack = s.vstack)
     (h3 : s'.rstack = s.rstack) (h4 : s'.recoveryStack = s.recoveryStack)
     (h5 : s'.maxFailInvert = s.maxFailInvert) (h6 : s'.state = s.state)
-    (h7 : s'.global = s.global) (h8 : s'.trace = s.trace) : Stk E s s' :=
+    (h7 : s'.global = s.global) (h8 : s'.trace = s.trace) (h9 : s'.pt = s.pt) (h10 : s'.memo = s.memo) :
+    Stk E s s' :=
   ⟨by omega, by rw [h2], by rw [h2], h3, h4, h5, fun _ => h6, fun _ _ h => by omega,
-   fun h => by unfold GInv at *; rw [h7, h8]; exact h⟩
+   fun h => by unfold GInv at *; rw [h7, h8]; exact h,
+   fun h => by unfold PtInv at *; rw [h9, h10]; exact h⟩
+
+theorem PtInv.congr {E : Env} {s s' : PState} (h : PtInv E s) (h1 : s'.pt = s.pt) (h2 : s'.memo = s.memo) :
+    PtInv E s' := by
+  unfold PtInv at *; rw [h1, h2]; exact h
+
+/-- `c` agrees with `b` on the frame fields; its position invariant is argued separately -/
+theorem Stk.extend {E : Env} {a b c : PState} (h : Stk E a b) (h1 : c.exprCnt = b.exprCnt)
+    (h2 : c.vstack = b.vstack) (h3 : c.rstack = b.rstack) (h4 : c.recoveryStack = b.recoveryStack)
+    (h5 : c.maxFailInvert = b.maxFailInvert) (h6 : c.state = b.state) (h7 : c.global = b.global)
+    (h8 : c.trace = b.trace) (hp : PtInv E a → PtInv E b → PtInv E c) : Stk E a c :=
+  ⟨h1 ▸ h.cnt, h2 ▸ h.vtail, h2 ▸ h.vlen, h3 ▸ h.rstack, h4 ▸ h.recov, h5 ▸ h.invert,
+   fun hu => h6 ▸ h.noState hu, fun n hn hb => h1 ▸ h.bnd n hn hb,
+   fun hg => by have := h.ginv hg; unfold GInv at *; rw [h7, h8]; exact this,
+   fun hpa => hp hpa (h.ptinv hpa)⟩
+
+theorem restore_pt_reach {inp : List Nat} (s : PState) (pt : Savepoint) (h1 : Reach inp s.pt) (h2 : Reach inp pt) :
+    Reach inp (restore s pt).pt := by
+  unfold restore; split
+  · exact h1
+  · exact h2
+
+@[simp] theorem restore_memo' (s : PState) (pt : Savepoint) : (restore s pt).memo = s.memo := by
+  unfold restore; split <;> rfl
 
 @[simp] theorem restore_off (s : PState) (pt : Savepoint) : (restore s pt).pt.pos.off = pt.pos.off := by
   unfold restore; split
@@ -70,26 +96,39 @@ theorem MemoOK.set {s : PState} {pt : Savepoint} {k : MemoKey} {t : MemoVal} (hm
   · exact h
   · exact hm e he
 
-macro "stk_eq" : tactic => `(tactic| exact Stk.of_eq (by simp) (by simp) (by simp) (by simp) (by simp) (by simp) (by simp) (by simp))
+macro "stk_ext " h:term " with " hp:term : tactic =>
+  `(tactic| exact Stk.extend $h (by simp) (by simp) (by simp) (by simp) (by simp) (by simp) (by simp) (by simp) $hp)
+
+macro "stk_eq" : tactic => `(tactic| exact Stk.of_eq (by simp) (by simp) (by simp) (by simp) (by simp) (by simp) (by simp) (by simp) (by simp) (by simp))
 
 section
 variable {E : Env} {rec : Expr → PState → Outcome}
 
 theorem Framed.hit {s : PState} {k : MemoKey} {res : MemoVal} (hm : MemoOK s)
     (h : getMemoized s k = some res) : Framed E s res.b (restore s res.end) := by
-  refine ⟨by stk_eq, fun _ => by simp, ?_, hm.congr (by simp)⟩
+  have hstk : Stk E s (restore s res.end) := by
+    stk_ext (Stk.refl E s) with (fun hp _ => ⟨restore_pt_reach s _ hp.1 (hp.2 _ (getMemoized_mem h)), by simpa using hp.2⟩)
+  refine ⟨hstk, fun _ => by simp, ?_, hm.congr (by simp)⟩
   intro hb
   rw [restore_off]; exact hm.hit h hb
 
 theorem Framed.hit' {s : PState} {k : MemoKey} {res : MemoVal} (hm : MemoOK s)
     (h : getMemoized s k = some res) : Framed E s res.b (restore (RT.hit s) res.end) := by
-  refine ⟨by stk_eq, fun _ => by simp, ?_, hm.congr (by simp)⟩
+  have hstk : Stk E s (restore (RT.hit s) res.end) := by
+    stk_ext (Stk.refl E s) with (fun hp _ =>
+      ⟨restore_pt_reach (RT.hit s) _ (by simpa using hp.1) (hp.2 _ (getMemoized_mem h)), by simpa using hp.2⟩)
+  refine ⟨hstk, fun _ => by simp, ?_, hm.congr (by simp)⟩
   intro hb
   rw [restore_off]; exact hm.hit h hb
 
 theorem Framed.memoized {s s1 : PState} {v : Val} {ok : Bool} {k : MemoKey} (h : Framed E s ok s1) :
     Framed E s ok (setMemoized s1 s.pt k { v := v, b := ok, «end» := s1.pt }) := by
-  have hs : Stk E s1 (setMemoized s1 s.pt k { v := v, b := ok, «end» := s1.pt }) := by stk_eq
+  have hs : Stk E s1 (setMemoized s1 s.pt k { v := v, b := ok, «end» := s1.pt }) := by
+    stk_ext (Stk.refl E s1) with (fun hp _ => ⟨by simpa using hp.1, by
+      intro e he; simp [setMemoized] at he
+      rcases he with rfl | he
+      · exact hp.1
+      · exact hp.2 e he⟩)
   exact ⟨h.stk.trans hs, fun hb => by simp [h.failState hb], fun hb => by simp [h.failOff hb],
     h.memo.set (fun hb => h.failOff hb)⟩
 
@@ -127,7 +166,7 @@ theorem Outcome.sat_bind' {o : Outcome} {k : Val → Bool → PState → Outcome
 theorem Stk.restoreState (E : Env) (s : PState) (st : Store) : Stk E s (restoreState E s st) :=
   ⟨by simp, by simp, by simp, by simp, by simp, by simp,
    fun h => by simp [RT.restoreState, h], fun _ _ h => by simpa using h,
-   fun h => h.congr (by simp) (by simp)⟩
+   fun h => h.congr (by simp) (by simp), fun h => h.congr (by simp) (by simp)⟩
 
 theorem restoreState_state {s0 s1 : PState} (h : Stk E s0 s1) :
     (RT.restoreState E s1 s0.state).state = s0.state := by
@@ -154,8 +193,10 @@ theorem seq_frame (hrec : ∀ e s, FrameInv E s (rec e s)) (s0 : PState) :
     | false =>
       simp only [Outcome.Sat]
       have h01 := hs.trans h.stk
-      refine ⟨h01.trans ((Stk.restoreState E s1 s0.state).trans (by stk_eq)), fun _ => ?_, fun _ => by simp,
-        h.memo.congr (by simp)⟩
+      have hback : Stk E s0 (restore (RT.restoreState E s1 s0.state) s0.pt) := by
+        stk_ext (h01.trans (Stk.restoreState E s1 s0.state)) with (fun hp0 hp1 =>
+          ⟨restore_pt_reach _ _ hp1.1 hp0.1, by simpa using hp1.2⟩)
+      refine ⟨hback, fun _ => ?_, fun _ => by simp, h.memo.congr (by simp)⟩
       simpa using restoreState_state h01
 
 @[simp] theorem pushV_vstack (s : PState) : (pushV s).vstack = [] :: s.vstack := rfl
@@ -167,7 +208,8 @@ theorem Stk.pushpop {s s1 : PState} (h : Stk E (pushV s) s1) : Stk E s (popV s1)
   simp at h1 h2 h3 h4 h5 h6 h7 h8
   refine ⟨by simpa using h1, by simp [h2], ?_, by simpa using h4, by simpa using h5,
     by simpa using h6, fun hu => by simpa using h7 hu, fun n hn hb => by simpa using h8 n hn hb,
-    fun hg => (h.ginv (hg.congr (by simp) (by simp))).congr (by simp) (by simp)⟩
+    fun hg => (h.ginv (hg.congr (by simp) (by simp))).congr (by simp) (by simp),
+    fun hp => (h.ptinv (hp.congr (by simp) (by simp))).congr (by simp) (by simp)⟩
   simp [h2]
 
 theorem choice_frame (hrec : ∀ e s, FrameInv E s (rec e s)) (s0 : PState) (line col : Nat) :
@@ -228,6 +270,13 @@ theorem loop_frame (hrec : ∀ e s, FrameInv E s (rec e s)) (s0 : PState) (e : E
       · simp only [Outcome.Sat]
         exact ⟨hs.trans hpp, nofun, nofun, h.memo.congr (by simp)⟩
 
+theorem PtInv.read' {E : Env} {s : PState} (h : PtInv E s) (hg : ¬ (s.pt.rn = runeError ∧ s.pt.w = 0)) :
+    Reach E.input (read E s).pt := by
+  rw [read_pt]
+  apply h.1.next
+  intro hw
+  exact hg ⟨h.1.w0 hw, hw⟩
+
 theorem lit_frame (s0 : PState) (want : String) (ic : Bool) :
     ∀ (rs : List Rune) (s : PState), Stk E s0 s → s.state = s0.state → MemoOK s →
       Post E s0 (parseLit E s0.pt want ic rs s)
@@ -238,8 +287,15 @@ theorem lit_frame (s0 : PState) (want : String) (ic : Bool) :
     unfold parseLit
     split
     · simp only [Outcome.Sat]
-      exact ⟨hs.trans (by stk_eq), fun _ => by simp [hst], fun _ => by simp, hm.congr (by simp)⟩
-    · exact lit_frame s0 want ic rs (read E s) (hs.trans (by stk_eq)) (by simp [hst]) (hm.congr (by simp))
+      have hback : Stk E s0 (restore (failAt s false s0.pt.pos want) s0.pt) := by
+        stk_ext hs with (fun hp0 hp1 => ⟨restore_pt_reach _ _ (by simpa using hp1.1) hp0.1, by simpa using hp1.2⟩)
+      exact ⟨hback, fun _ => by simp [hst], fun _ => by simp, hm.congr (by simp)⟩
+    · next hc =>
+      have hw : s.pt.w ≠ 0 := by
+        intro hw; apply hc; simp [hw]
+      have hrd : Stk E s0 (read E s) := by
+        stk_ext hs with (fun _ hp1 => ⟨hp1.read' (fun hh => hw hh.2), by simpa using hp1.2⟩)
+      exact lit_frame s0 want ic rs (read E s) hrd (by simp [hst]) (hm.congr (by simp))
 
 theorem throw_frame (hrec : ∀ e s, FrameInv E s (rec e s)) (s0 : PState) (label : String) :
     ∀ (frames : List (List (String × Expr))) (s : PState), Stk E s0 s → s.state = s0.state →
@@ -281,7 +337,8 @@ theorem rule_frame (hrec : ∀ e s, FrameInv E s (rec e s)) (r : Rule) (s : PSta
   refine ⟨⟨by simpa [popV] using h1, by simp [popV, h2], by simp [popV, h2], by simp [popV, h4],
     by simpa [popV] using h5, by simpa [popV] using h6, fun hu => by simpa [popV] using h7 hu,
     fun n hn hb => by simpa [popV] using h10 n hn hb,
-    fun hg => (h.stk.ginv (hg.congr rfl rfl)).congr rfl rfl⟩,
+    fun hg => (h.stk.ginv (hg.congr rfl rfl)).congr rfl rfl,
+    fun hp => (h.stk.ptinv (hp.congr rfl rfl)).congr rfl rfl⟩,
     fun hb => by simpa [popV] using h8 hb, fun hb => by simpa [popV] using h9 hb,
     h.memo.congr (by simp [popV])⟩
 
@@ -295,25 +352,49 @@ theorem ruleMemo_frame (hrec : ∀ e s, FrameInv E s (rec e s)) (r : Rule) (s : 
     intro v ok s1 h
     exact h.memoized
 
+theorem restoreState_state_of {s1 : PState} {st0 : Store} (hns : E.useState = false → s1.state = st0) :
+    (RT.restoreState E s1 st0).state = st0 := by
+  unfold RT.restoreState
+  cases hu : E.useState with
+  | true => simp
+  | false => simpa using hns hu
+
 theorem leader_frame (hrec : ∀ e s, FrameInv E s (rec e s)) (r : Rule) (s0 : PState) :
     ∀ (k depth : Nat) (last : MemoVal) (lastErrs : List String) (s : PState), Stk E s0 s →
-      (last.b = false → last.end.pos.off = s0.pt.pos.off ∧ s.state = s0.state) → MemoOK s →
+      (last.b = false → last.end.pos.off = s0.pt.pos.off ∧ s.state = s0.state) →
+      (PtInv E s0 → Reach E.input last.end) → MemoOK s →
       Post E s0 (leaderLoop E rec r s0.pt k depth last lastErrs s)
-  | 0, _, _, _, _, _, _, _ => trivial
-  | k + 1, depth, last, lastErrs, s, hs, hl, hm => by
+  | 0, _, _, _, _, _, _, _, _ => trivial
+  | k + 1, depth, last, lastErrs, s, hs, hl, hlast, hm => by
     unfold leaderLoop
     simp only []
     have hm1 : MemoOK (setMemoized s s0.pt (.rule r.name) last) := hm.set (fun hb => (hl hb).1)
-    have hs1 : Stk E s (setMemoized s s0.pt (.rule r.name) last) := by stk_eq
+    have hs01 : Stk E s0 (setMemoized s s0.pt (.rule r.name) last) := by
+      stk_ext hs with (fun hp0 hp1 => ⟨by simpa using hp1.1, by
+        intro e he; simp [setMemoized] at he
+        rcases he with rfl | he
+        · exact hlast hp0
+        · exact hp1.2 e he⟩)
     apply Outcome.sat_bind' (rule_frame hrec r _ hm1)
       (fun s' h => hs.panic_trans (h.of_cnt_eq (by simp)))
     intro v ok s2 h
-    have hs2 : Stk E s s2 := hs1.trans h.stk
+    have hs02 : Stk E s0 s2 := hs01.trans h.stk
+    have hns : E.useState = false → s2.state = s.state := fun hu => by
+      have := h.stk.noState hu; simpa using this
     split
     · simp only [Outcome.Sat]
-      refine ⟨hs.trans (hs2.trans ((Stk.restoreState E s2 s.state).trans (by stk_eq))), ?_, ?_, ?_⟩
+      refine ⟨?_, ?_, ?_, ?_⟩
+      · stk_ext (hs02.trans (Stk.restoreState E s2 s.state)) with (fun hp0 hp1 =>
+          ⟨by
+            show Reach E.input (setMemoized (restore _ last.end) s0.pt (.rule r.name) last).pt
+            simp only [setMemoized.pt]
+            exact restore_pt_reach _ _ (by simpa using hp1.1) (hlast hp0), by
+            intro e he; simp [setMemoized] at he
+            rcases he with rfl | he
+            · exact hlast hp0
+            · exact hp1.2 e (by simpa using he)⟩)
       · intro hb
-        have := restoreState_state hs2
+        have := restoreState_state_of (E := E) hns
         simpa [(hl hb).2] using this
       · intro hb; simp [(hl hb).1]
       · exact MemoOK.set (h.memo.congr (by simp)) (fun hb => by simp [(hl hb).1])
@@ -323,8 +404,10 @@ theorem leader_frame (hrec : ∀ e s, FrameInv E s (rec e s)) (r : Rule) (s0 : P
         | true => rfl
         | false => simp at hc
       subst hok
+      have hnext : Stk E s0 (restore s2 s0.pt) := by
+        stk_ext hs02 with (fun hp0 hp1 => ⟨restore_pt_reach _ _ hp1.1 hp0.1, by simpa using hp1.2⟩)
       exact leader_frame hrec r s0 k (depth + 1) _ s2.errs (restore s2 s0.pt)
-        (hs.trans (hs2.trans (by stk_eq))) (fun hb => by simp at hb) (h.memo.congr (by simp))
+        hnext (fun hb => by simp at hb) (fun hp0 => (hs02.ptinv hp0).1) (h.memo.congr (by simp))
 
 theorem ruleLeader_frame (hrec : ∀ e s, FrameInv E s (rec e s)) (k : Nat) (r : Rule) (s : PState) :
     FrameInv E s (parseRuleLeader E rec k r s) := by
@@ -332,7 +415,7 @@ theorem ruleLeader_frame (hrec : ∀ e s, FrameInv E s (rec e s)) (k : Nat) (r :
   unfold parseRuleLeader
   split
   · next res hres => exact Framed.hit hm hres
-  · exact leader_frame hrec r s k 0 _ s.errs s (Stk.refl E s) (fun _ => ⟨rfl, rfl⟩) hm
+  · exact leader_frame hrec r s k 0 _ s.errs s (Stk.refl E s) (fun _ => ⟨rfl, rfl⟩) (fun hp => hp.1) hm
 
 theorem ruleWrap_frame (hrec : ∀ e s, FrameInv E s (rec e s)) (k : Nat) (r : Rule) (s : PState) :
     FrameInv E s (parseRuleWrap E rec k r s) := by
@@ -345,10 +428,13 @@ theorem ruleWrap_frame (hrec : ∀ e s, FrameInv E s (rec e s)) (k : Nat) (r : R
 
 /-! ### terminals -/
 
-theorem matchOne_frame (s0 s : PState) (want : String) (hs : Stk E s0 s) (hm : MemoOK s) :
+theorem matchOne_frame (s0 s : PState) (want : String) (hs : Stk E s0 s) (hm : MemoOK s)
+    (hg : ¬ (s.pt.rn = runeError ∧ s.pt.w = 0)) :
     Post E s0 (matchOne E s want) := by
   simp only [matchOne, Outcome.Sat]
-  exact ⟨hs.trans (by stk_eq), nofun, nofun, hm.congr (by simp)⟩
+  have hst : Stk E s0 (failAt (read E s) true s.pt.pos want) := by
+    stk_ext hs with (fun _ hp1 => ⟨by simpa using hp1.read' hg, by simpa using hp1.2⟩)
+  exact ⟨hst, nofun, nofun, hm.congr (by simp)⟩
 
 theorem failTerm_frame (s0 s : PState) (pos : Pos) (want : String) (hs : Stk E s0 s)
     (hst : s.state = s0.state) (hoff : s.pt.pos.off = s0.pt.pos.off) (hm : MemoOK s) :
@@ -361,16 +447,27 @@ theorem charClass_frame (s0 s : PState) (c : ClassDesc) (hs : Stk E s0 s)
     Post E s0 (parseCharClass E c s) := by
   unfold parseCharClass
   simp only []
-  repeat' split
-  all_goals first
-    | exact matchOne_frame s0 s _ hs hm
-    | exact failTerm_frame s0 s _ _ hs hst hoff hm
+  split
+  · next hbl =>
+    have hlt : s.pt.rn < 128 := by simp at hbl; exact hbl.2
+    have hg : ¬ (s.pt.rn = runeError ∧ s.pt.w = 0) := by
+      intro ⟨h1, _⟩; rw [h1] at hlt; simp [runeError] at hlt
+    split
+    · exact matchOne_frame s0 s _ hs hm hg
+    · exact failTerm_frame s0 s _ _ hs hst hoff hm
+  · split
+    · exact failTerm_frame s0 s _ _ hs hst hoff hm
+    · next heof =>
+      have hg : ¬ (s.pt.rn = runeError ∧ s.pt.w = 0) := by simpa using heof
+      split
+      · exact matchOne_frame s0 s _ hs hm hg
+      · exact failTerm_frame s0 s _ _ hs hst hoff hm
 
 /-- after a code block: the frame is untouched except for the stores -/
 theorem Stk.callBlock (blk : Nat) (s : PState) : Stk E s (callBlock E blk s).2 :=
   ⟨by simp, by simp, by simp, by simp, by simp, by simp,
    fun hu => by simp [RT.callBlock, hu], fun _ _ h => by simpa using h,
-   fun _ => by simp [GInv, lastGlobal, RT.callBlock]⟩
+   fun _ => by simp [GInv, lastGlobal, RT.callBlock], fun h => h.congr (by simp) (by simp)⟩
 
 /-! ### code blocks -/
 
@@ -409,7 +506,7 @@ theorem action_frame (hrec : ∀ e s, FrameInv E s (rec e s)) (s0 s : PState) (b
   | true =>
     simp only [if_true]
     generalize hs2 : ({ s1 with curPos := s.pt.pos, curText := sliceFrom E s1 s.pt } : PState) = s2
-    have h12 : Stk E s1 s2 := by subst hs2; exact ⟨Nat.le_refl _, rfl, rfl, rfl, rfl, rfl, fun _ => rfl, fun _ _ h => h, fun h => h⟩
+    have h12 : Stk E s1 s2 := by subst hs2; exact ⟨Nat.le_refl _, rfl, rfl, rfl, rfl, rfl, fun _ => rfl, fun _ _ h => h, fun h => h, fun h => h⟩
     have hm2 : MemoOK s2 := h.memo.congr (by subst hs2; rfl)
     have hcb := Stk.callBlock (E := E) blk s2
     have h0 := hs.trans (h.stk.trans (h12.trans hcb))
@@ -444,8 +541,10 @@ theorem body_frame (hrec : ∀ e s, FrameInv E s (rec e s)) (k : Nat) (e : Expr)
     intro v ok s1 h
     have hpp := h.stk.pushpop
     simp only [Outcome.Sat]
-    refine ⟨hs.trans (hpp.trans ((Stk.restoreState E _ s.state).trans (by stk_eq))), fun _ => ?_,
-      fun _ => by simp [hoff], h.memo.congr (by simp)⟩
+    have hback : Stk E s0 (restore (RT.restoreState E (popV s1) s.state) s.pt) := by
+      stk_ext (hs.trans (hpp.trans (Stk.restoreState E _ s.state))) with (fun hp0 hp1 =>
+        ⟨restore_pt_reach _ _ hp1.1 (hs.ptinv hp0).1, by simpa using hp1.2⟩)
+    refine ⟨hback, fun _ => ?_, fun _ => by simp [hoff], h.memo.congr (by simp)⟩
     rw [hst]; simpa using restoreState_state (hs.trans hpp)
   | not id e1 =>
     simp only [parseNot]
@@ -460,16 +559,19 @@ theorem body_frame (hrec : ∀ e s, FrameInv E s (rec e s)) (k : Nat) (e : Expr)
       ⟨by simpa [popV] using h1, by simp [popV, h2], by simp [popV, h2], by simpa [popV] using h4,
        by simpa [popV] using h5, by simp [popV, h6], fun hu => by simpa [popV] using h7 hu,
        fun n hn hb => by simpa [popV] using h8 n hn hb,
-       fun hg => (h.stk.ginv (hg.congr rfl rfl)).congr rfl rfl⟩
+       fun hg => (h.stk.ginv (hg.congr rfl rfl)).congr rfl rfl,
+       fun hp => (h.stk.ptinv (hp.congr rfl rfl)).congr rfl rfl⟩
     simp only [Outcome.Sat]
-    refine ⟨hs.trans (hpp.trans ((Stk.restoreState E _ s.state).trans (by stk_eq))), fun _ => ?_,
-      fun _ => by simp [hoff], h.memo.congr (by simp [popV])⟩
+    have hback : Stk E s0 (restore (RT.restoreState E (popV { s1 with maxFailInvert := !s1.maxFailInvert }) s.state) s.pt) := by
+      stk_ext (hs.trans (hpp.trans (Stk.restoreState E _ s.state))) with (fun hp0 hp1 =>
+        ⟨restore_pt_reach _ _ hp1.1 (hs.ptinv hp0).1, by simpa using hp1.2⟩)
+    refine ⟨hback, fun _ => ?_, fun _ => by simp [hoff], h.memo.congr (by simp [popV])⟩
     rw [hst]; simpa using restoreState_state (hs.trans hpp)
   | any id =>
     simp only [parseAny]
     split
     · exact failTerm_frame s0 s _ _ hs hst hoff hm
-    · exact matchOne_frame s0 s _ hs hm
+    · next heof => exact matchOne_frame s0 s _ hs hm (by simpa using heof)
   | cls id c => exact charClass_frame s0 s c hs hst hoff hm
   | choice id line col alts => exact choice_frame hrec s0 line col alts 0 s hs hst hoff hm
   | labeled id label e1 =>
@@ -487,7 +589,7 @@ theorem body_frame (hrec : ∀ e s, FrameInv E s (rec e s)) (k : Nat) (e : Expr)
       subst hok
       refine ⟨hs.trans (hpp.trans ?_), nofun, nofun, h.memo.congr (by simp)⟩
       refine ⟨by simp, ?_, ?_, by simp, by simp, by simp, fun _ => by simp, fun _ _ h => by simpa using h,
-        fun h => h.congr (by simp) (by simp)⟩
+        fun h => h.congr (by simp) (by simp), fun h => h.congr (by simp) (by simp)⟩
       · unfold setLabel; split <;> simp_all
       · unfold setLabel; split <;> simp_all
     · exact ⟨hs.trans hpp, fun hb => by simp [h1 hb, hst], fun hb => by simp [h2 hb, hoff],
@@ -525,7 +627,8 @@ theorem body_frame (hrec : ∀ e s, FrameInv E s (rec e s)) (k : Nat) (e : Expr)
     refine ⟨hs.trans ⟨by simpa using h1, by simpa using h2, by simpa using h3, by simpa using h4,
         by simp [popRecovery, h5, pushRecovery], by simpa using h6, fun hu => by simpa using h7 hu,
         fun n hn hb => by simpa using h10 n hn hb,
-        fun hg => (h.stk.ginv (hg.congr (by simp) (by simp))).congr (by simp) (by simp)⟩,
+        fun hg => (h.stk.ginv (hg.congr (by simp) (by simp))).congr (by simp) (by simp),
+        fun hp => (h.stk.ptinv (hp.congr (by simp) (by simp))).congr (by simp) (by simp)⟩,
       fun hb => by simp [h8 hb, hst], fun hb => by simp [h9 hb, hoff], h.memo.congr (by simp)⟩
   | ruleRef id name =>
     simp only [parseRuleRef]
@@ -556,7 +659,7 @@ theorem step_frame (hrec : ∀ e s, FrameInv E s (rec e s)) (k : Nat) (e : Expr)
   · simp only [Outcome.Sat]
     exact ⟨by simp [bump], fun n _ hb => by simpa [bump] using hb⟩
   · next hob =>
-    refine body_frame hrec k e s0 (bump s0) ⟨by simp [bump], rfl, rfl, rfl, rfl, rfl, fun _ => rfl, ?_, fun h => h⟩
+    refine body_frame hrec k e s0 (bump s0) ⟨by simp [bump], rfl, rfl, rfl, rfl, rfl, fun _ => rfl, ?_, fun h => h, fun h => h⟩
       rfl rfl (hm0.congr rfl)
     intro n hn _
     simp [overBudget, hn] at hob
